@@ -500,6 +500,145 @@ def unit_methods(unit):
     return agg
 
 
+# ---------------------------------------------------------------------------- table arithmetic = the column operation, differential
+def unit_table_columnwise(unit):
+    """'arithmetic with a table as left operand is the same operation applied column by column': for every operator, every
+    column mix (incl. date / datetime / str / bool / nullable columns) and every right operand (scalars of every kind,
+    timedelta, a table of equal shape), op(table, y) must have exactly the columns [op(column, y)] - the vector operation is
+    the oracle, whatever it does (day shifting for dates, raising, pairing up)."""
+    from serif import Vector, Table
+    agg = Agg()
+    T1, T2 = datetime(2020, 2, 28, 5), datetime(2021, 12, 31, 6)
+    cols = {
+        "int": [1, -2], "float": [0.5, 2.0], "bool": [True, False], "str": ["p", ""], "date": [D1, D2], "datetime": [T1, T2],
+        "int?": [None, 3], "date?": [D1, None], "complex": [1j, 2 + 0j],
+    }
+    scal = [2, 0, -1, 0.5, True, "z", 1j, timedelta(days=1), timedelta(days=-40), D1, None]
+    names = list(cols)
+    layouts = [(a,) for a in names] + [(a, b) for a in names for b in names if a != b]
+
+    def same_outcome(a, b):
+        if isinstance(a, Exception) or isinstance(b, Exception):
+            return isinstance(a, Exception) and isinstance(b, Exception)
+        return same_list(list(a._underlying), list(b._underlying))
+
+    for lay in layouts:
+        for opn, op in OPS.items():
+            rights = [("scalar", y) for y in scal] + [("table", lay2) for lay2 in layouts if len(lay2) == len(lay)][:12]
+            for rk, y in rights:
+                agg.evals += 1; agg.transitions += 1 + len(lay); agg.states += 1
+                case = {"table_columns": list(lay), "op": opn, "right": rk, "right_value": repr(y)}
+                t = Table([Vector(list(cols[k]), name=f"c{i}") for i, k in enumerate(lay)])
+                yt = Table([Vector(list(cols[k]), name=f"d{i}") for i, k in enumerate(y)]) if rk == "table" else y
+                want = []
+                for i, k in enumerate(lay):
+                    c = Vector(list(cols[k]), name=f"c{i}")
+                    try:
+                        want.append(op(c, yt._underlying[i] if rk == "table" else y))
+                    except Exception as e:
+                        want.append(e)
+                try:
+                    res = op(t, yt)
+                except Exception as e:
+                    res = e
+                agg.compared += 1
+                if any(isinstance(w, Exception) for w in want):
+                    if isinstance(res, Exception):
+                        agg.outcomes["columnwise-both-raise"] += 1
+                    elif all(isinstance(w, Exception) for w in want):
+                        agg.violation(V(f"table.{opn}.{rk}", "table-accepts-what-every-column-rejects", case, [repr(w)[:60] for w in want], repr(res)[:80]))
+                    else:
+                        agg.skipped["some-column-raises"] += 1
+                    continue
+                agg.nontrivial += 1
+                if isinstance(res, Exception):
+                    agg.violation(V(f"table.{opn}.{rk}", "table-raises-where-columns-compute-" + type(res).__name__, case,
+                                    [list(w._underlying) for w in want], repr(res)[:80]))
+                    continue
+                if type(res).__name__ != "Table" or len(res._underlying) != len(want):
+                    agg.violation(V(f"table.{opn}.{rk}", "result-not-a-table", case, None, repr(res)[:80]))
+                    continue
+                bad = [i for i, (g, w) in enumerate(zip(res._underlying, want)) if not same_outcome(g, w)]
+                if bad:
+                    i = bad[0]
+                    agg.violation(V(f"table.{opn}.{rk}", "differs-from-the-column-operation-" + lay[i].rstrip("?"), case,
+                                    list(want[i]._underlying), list(res._underlying[i]._underlying)))
+                else:
+                    agg.outcomes["columnwise-agree"] += 1
+    return agg
+
+
+# ---------------------------------------------------------------------------- broadcast methods after an in-place promotion
+PROMOTIONS = [
+    ("int", [0, 5, -3], 2.5), ("int", [0, 5, -3], 1 + 2j), ("float", [0.5, -2.0, 3.0], 1 - 1j), ("bool", [True, False, True], 7),
+    ("bool", [True, False, True], 2.5), ("date", [D1, D2, D1], datetime(2022, 3, 4, 5, 6)), ("int", [2 ** 53 + 1, 5, -3], 0.5),
+]
+
+
+def unit_promoted(unit):
+    """a vector whose kind was widened IN PLACE by a write (int -> float / complex, bool -> int, date -> datetime), through the
+    vector, a live column view or a table cell: every method / property of the NEW element type (and every one of the old type
+    that the new elements still have) must be the method applied to each CURRENT element"""
+    from serif import Vector, Table
+    _, pi = unit
+    src, data, new = PROMOTIONS[pi]
+    agg = Agg()
+    generic = set(dir(Vector))
+    for through in ("vector", "column-view", "table-cell"):
+        for pos in range(len(data)):
+            for primed in (False, True):
+                def build():
+                    if through == "vector":
+                        v = Vector(list(data)); t = None
+                    else:
+                        t = Table([Vector(list(data), name="a"), Vector(list(range(len(data))), name="b")])
+                        v = t["a"]
+                    if primed:                      # the attribute machinery was used before the promotion
+                        for nm in ("real", "year", "bit_length"):
+                            try:
+                                getattr(v, nm)
+                            except Exception:
+                                pass
+                    if through == "table-cell":
+                        t[pos, "a"] = new
+                        v = t["a"]
+                    else:
+                        v[pos] = new
+                    return v
+                try:
+                    v0 = build()
+                except Exception as e:
+                    agg.skipped["promoting-write-refused-" + type(e).__name__] += 1      # whether it may be refused is C08's subject
+                    continue
+                cur = list(v0._underlying)
+                tnew = type(cur[pos])
+                names = [n for n in dir(tnew) if not n.startswith("_") and n not in EXCLUDE and n not in generic]
+                for name in names:
+                    is_prop = not callable(getattr(tnew, name))
+                    for args in ([()] if is_prop else ARG_MENU):
+                        try:
+                            want = [getattr(x, name) if is_prop else getattr(x, name)(*args) for x in cur]
+                        except Exception:
+                            agg.skipped["python-rejects-args"] += 1
+                            continue
+                        agg.evals += 1; agg.transitions += 2; agg.states += 1; agg.nontrivial += 1; agg.compared += 1
+                        case = {"kind_before": src, "data": [repr(x) for x in data], "write": [pos, repr(new)], "through": through,
+                                "attribute_used_before_promotion": primed, "method": name, "args": list(args), "elements_now": [repr(x) for x in cur]}
+                        try:
+                            v = build()
+                            res = getattr(v, name) if is_prop else getattr(v, name)(*args)
+                        except Exception as e:
+                            agg.violation(V(f"promoted.{type(cur[pos]).__name__}.{name}", "raises-" + type(e).__name__, case, want, repr(e)[:80]))
+                            continue
+                        got = result_list(res)
+                        if got is None or not same_list(got, want):
+                            agg.violation(V(f"promoted.{type(cur[pos]).__name__}.{name}", "not-the-method-of-the-current-elements", case, want, got))
+                        else:
+                            agg.outcomes["promoted-method-agree"] += 1
+    return agg
+
+
+
 def check(ctx):
     L = ctx.pick(3, 4)
     kinds = list(ALPHA)
@@ -510,6 +649,8 @@ def check(ctx):
     parts += core.pmap(unit_unary, [("un", k, L + 1) for k in ("bool", "int", "float", "complex")])
     parts += core.pmap(unit_dates, [("dates",)])
     parts += core.pmap(unit_table, [("tables",)])
+    parts += core.pmap(unit_table_columnwise, [("tables-columnwise",)])
+    parts += core.pmap(unit_promoted, [("promoted", i) for i in range(len(PROMOTIONS))])
     sizes = (0, 1, 2, 3)
     parts += core.pmap(unit_methods, [("meth", k, sizes) for k in METHOD_KINDS] + [("meth", k, sizes, "recycle") for k in METHOD_KINDS])
     agg = core.merge_all(parts)
